@@ -3,7 +3,7 @@ CANON = True
 
 import ast
 
-from .. import compq, pyq
+from .. import boolfn, pm, compq, pyq
 from ..pysrc import dotted, norm, flat
 
 UT = "hy/core/util.hy"
@@ -34,17 +34,26 @@ def check(ctx, src):
     loop = next((n for n in f.body if isinstance(n, ast.While)), None)
     ctx.need(loop is not None, "macroexpand loop not found")
     ctx.check(norm(loop.test) == "isinstance(tree, Expression) and tree", "MX-LOOP", f"{MC}|macroexpand|loop condition", f"loop condition is `{norm(loop.test)}`", MC, loop.lineno, detail="while tree is a non-empty Expression")
-    ret = pyq.contains(loop, lambda n: isinstance(n, ast.Return))
-    ctx.check(ret is not None and norm(ret.value) == "obj if result_ok else tree" and isinstance(ret._parent, ast.If) and norm(ret._parent.test) == "isinstance(obj, (hy.compiler.Result, AST))", "MX-LOOP", f"{MC}|macroexpand|result",
-              "a compiler Result must be returned only when result_ok, else the tree as expanded so far", MC, loop.lineno, detail="obj if result_ok else tree")
-    rebind = pyq.contains(loop, lambda n: isinstance(n, ast.Assign) and norm(n) == "tree = replace_hy_obj(obj, tree)")
-    reads = [n for n in ast.walk(loop) if isinstance(n, ast.Name) and n.id == "tree"]
-    other = {n.id for n in ast.walk(loop) if isinstance(n, ast.Name) and isinstance(n.ctx, ast.Store)} - {"tree", "fn", "m", "obj", "req_from", "_", "e"}
-    ctx.check(rebind is not None and norm(f.body[-1]) == "return tree", "MX-LOOP", f"{MC}|macroexpand|rebinding", "each expansion must be stored back into `tree`, which is what the loop tests, what a core macro leaves unchanged, and what is returned", MC, loop.lineno,
-              witness="(hy.macroexpand '(m0 5)) where m0 expands into a core form returns the original '(m0 5)", detail="tree = replace_hy_obj(obj, tree) … return tree")
-    head = pyq.contains(loop, lambda n: isinstance(n, ast.Assign) and norm(n) == "fn = tree[0]")
-    calls_m = pyq.contains(loop, lambda n: isinstance(n, ast.Call) and isinstance(n.func, ast.Name) and n.func.id == "m")
-    args_from_tree = calls_m is not None and "*map(as_model, tree[1:])" in norm(calls_m).replace("\n", "")
+    # T: the variable the loop tests; every expansion must be stored back into it, and it is what is returned
+    tv = next((c.args[0].id for c in ast.walk(loop.test) if isinstance(c, ast.Call) and dotted(c.func) == "isinstance" and c.args and isinstance(c.args[0], ast.Name)), None)
+    ctx.need(tv is not None, "macroexpand: the variable tested by the loop was not recognised")
+    rets_in = [n for n in ast.walk(loop) if isinstance(n, ast.Return)]
+    AT = boolfn.Atoms(I="isinstance(obj, (hy.compiler.Result, AST))", K="result_ok")
+    r_obj = [r for r in rets_in if isinstance(r.value, ast.Name) and r.value.id != tv]
+    r_tree = [r for r in rets_in if isinstance(r.value, ast.Name) and r.value.id == tv]
+    v1, c1 = boolfn.equivalent(r_obj, loop, AT, lambda e: e["I"] and e["K"])
+    v2, c2 = boolfn.equivalent(r_tree, loop, AT, lambda e: e["I"] and not e["K"])
+    ok_names = len(rets_in) == len(r_obj) + len(r_tree)
+    ctx.decide("MX-LOOP", f"{MC}|macroexpand|result", None if (v1 is None or v2 is None) else (v1 and v2 and ok_names),
+               f"a compiler Result must be returned only when result_ok, else the tree as expanded so far (the loop variable `{tv}`); found returns of {[norm(r.value) for r in rets_in]}", MC, loop.lineno, detail="obj if result_ok else tree")
+    rebind = pyq.contains(loop, lambda n: isinstance(n, ast.Assign) and isinstance(n.targets[0], ast.Name) and n.targets[0].id == tv and isinstance(n.value, ast.Call) and dotted(n.value.func) == "replace_hy_obj")
+    final = f.body[-1]
+    ctx.decide("MX-LOOP", f"{MC}|macroexpand|rebinding", rebind is not None and isinstance(final, ast.Return) and isinstance(final.value, ast.Name) and final.value.id == tv,
+               f"each expansion must be stored back into `{tv}`, which is what the loop tests, what a core macro leaves unchanged, and what is returned (the function ends with `{norm(final)}`)", MC, loop.lineno,
+               witness="(hy.macroexpand '(m0 5)) where m0 expands into a core form returns the original '(m0 5)", detail="tree = replace_hy_obj(obj, tree) … return tree")
+    head = pyq.contains(loop, lambda n: isinstance(n, ast.Subscript) and isinstance(n.value, ast.Name) and n.value.id == tv and norm(n.slice) == "0")
+    calls_m = pyq.contains(loop, lambda n: isinstance(n, ast.Call) and isinstance(n.func, ast.Name) and pm.find(n, f"map(as_model, {tv}[1:])") is not None)
+    args_from_tree = calls_m is not None
     ctx.check(head is not None and args_from_tree, "MX-LOOP", f"{MC}|macroexpand|current tree", "head and arguments must be taken from the current tree", MC, loop.lineno, detail="fn = tree[0]; m(*map(as_model, tree[1:]))")
     on = [n for n in loop.body if isinstance(n, ast.If) and norm(n.test) == "once"]
     ctx.check(len(on) == 1 and isinstance(on[0].body[0], ast.Break) and loop.body[-1] is on[0], "MX-LOOP", f"{MC}|macroexpand|once", "`once` must break at the end of the first iteration", MC, loop.lineno, detail="if once: break")
@@ -55,8 +64,9 @@ def check(ctx, src):
     t = flat(hd.test)
     ctx.check(t == "isinstance(fn, Expression) and fn and (fn[0] == Symbol('.')) and all((isinstance(x, Symbol) for x in fn))", "MX-HEAD", f"{MC}|macroexpand|dotted head", f"dotted-head test is `{t}`; the emptiness test must precede fn[0]", MC, hd.lineno,
               witness="(hy.macroexpand-1 '(() 1)) raises IndexError instead of returning the model", detail="isinstance and fn and fn[0] == '.' and all symbols")
-    el = hd.orelse[0] if hd.orelse and isinstance(hd.orelse[0], ast.If) else None
-    ctx.check(el is not None and norm(el.test) == "isinstance(fn, Symbol)" and norm(el.body[0]) == "fn = mangle(fn)" and isinstance(el.orelse[0], ast.Break), "MX-HEAD", f"{MC}|macroexpand|symbol head", "a symbol head is mangled; any other head ends the expansion", MC, hd.lineno, detail="mangle / break")
+    mg = pm.find(loop, "fn = mangle(fn)")
+    brk = [b for b in ast.walk(loop) if isinstance(b, ast.Break) and pyq.has_atoms(b, loop, ["not isinstance(fn, Symbol)"])]
+    ctx.check(mg is not None and pyq.has_atoms(mg, loop, ["isinstance(fn, Symbol)"]) and len(brk) == 1, "MX-HEAD", f"{MC}|macroexpand|symbol head", "a symbol head is mangled; any other head ends the expansion", MC, hd.lineno, detail="mangle / break")
     ctx.assume("non-mutation of the input model is an aliasing property that is not decided")
     ctx.floor("MX-LOOP", 6)
 
